@@ -125,6 +125,9 @@ fn universe(tier: Tier, v: &mut impl Visitor) {
     static_vector_types(Tier::Quick, v);
     dynamic_vector_types(&[0, 1, 2], v);
     nested_types(tier, v);
+    if tier == Tier::Quick {
+        fourth_order_types(v);
+    }
 }
 
 fn main() {
